@@ -297,6 +297,9 @@ def main():
         # cases the harness could not run at all (child processes killed or not started on an overloaded machine) are not
         # answers of the implementation: they are left out of the comparison and reported; if most cases were lost the run
         # says nothing, which is an infrastructure error, not a verdict
+        flaky = r.get("histogram", {}).get("infra.crash-not-reproduced", 0)
+        if flaky:
+            print(f"NOTE engine {eng['name']}: {flaky} case(s) on which the child process died or stalled completed normally when run again on their own (twice); the completed runs were compared")
         not_run = r.get("histogram", {}).get("infra.not-run", 0)
         if not_run:
             print(f"NOTE engine {eng['name']}: {not_run} of {r.get('evaluations', '?')} cases could not be run (machine load); they are not part of the comparison")
